@@ -48,7 +48,7 @@ let parse_stage toks =
     s_enabled = opt b01 (f "en"); s_mutex = opt nat_s (f "mutex"); s_choice = opt nat_s (f "choice");
     s_max_jumps = opt z_s (f "maxj"); s_status = NOT_STARTED; s_started = false; s_ended = false;
     s_version = Z0; s_fired = false; s_branches = []; s_bypass = false; s_jump_count = Z0; s_buffered = [];
-    s_signal = None; s_has_exc = false; s_plan_pending = false; s_ctx = kv_of_string (f "ctx"); s_outs = [];
+    s_signal = None; s_has_exc = false; s_plan_pending = false; s_hydrated = []; s_ctx = kv_of_string (f "ctx"); s_outs = [];
     s_tasks = (let dis = List.map int_of_string (split_on ',' (f "dis")) in
                List.init (int_of_string (f "tasks")) (fun t -> mk_task (List.mem t dis))) }
 
@@ -80,11 +80,12 @@ let string_of_state s =
   let b = Buffer.create 512 in
   Printf.bprintf b "W %s %s |" (string_of_status s.w_status) (sb s.w_canceled);
   List.iteri (fun i st ->
-      Printf.bprintf b " S%d %s %s%s v%d f%s [%s] b%s j%d q%d g%s e%s p%s {%s} {%s} [%s];" i (string_of_status st.s_status)
+      Printf.bprintf b " S%d %s %s%s v%d f%s [%s] b%s j%d q%d g%s e%s p%s h[%s] {%s} {%s} [%s];" i (string_of_status st.s_status)
         (sb st.s_started) (sb st.s_ended) (int_of_z st.s_version) (sb st.s_fired)
         (String.concat "," (List.map (fun n -> string_of_int (int_of_nat n)) st.s_branches))
         (sb st.s_bypass) (int_of_z st.s_jump_count) (List.length st.s_buffered)
         (match st.s_signal with None -> "-" | Some n -> string_of_int (int_of_nat n)) (sb st.s_has_exc) (sb st.s_plan_pending)
+        (String.concat "," (List.map string_of_int (List.sort compare (List.map int_of_nat st.s_hydrated))))
         (string_of_kv st.s_ctx) (string_of_kv st.s_outs)
         (String.concat "," (List.map (fun t -> string_of_status t.t_status ^ (if t.t_started then "+" else "-")) st.s_tasks)))
     s.w_stages;
